@@ -189,7 +189,9 @@ func (g *stmtGen) stmt(inLoop, inFunc bool) {
 		g.line("s[0], s[1] = s[1], s[0]")
 		g.line("p.V, x = x, p.V")
 	case 6:
-		g.line("if ok(one()) && !ok(x) || ok(y) {")
+		// the condition alone, or preceded by an init statement of every kind (a call with and without results, an
+		// increment, a tuple assignment, a short declaration)
+		g.line("if %sok(one()) && !ok(x) || ok(y) {", rx.Pick(g.rt, "ifinit", "", "", "", "bump(); ", "one(); ", "two(); ", "x++; ", "x, y = y, x; ", "w := two2(); w > 0 && ", "_, w := two(); w > 0 || "))
 		g.depth++
 		g.stmts(rx.Range(g.rt, "n", 1, 3), inLoop, inFunc)
 		g.depth--
@@ -201,7 +203,15 @@ func (g *stmtGen) stmt(inLoop, inFunc bool) {
 		}
 		g.line("}")
 	case 7:
-		switch rx.Uniform(g.rt, 3, "loopform") {
+		switch rx.Uniform(g.rt, 5, "loopform") {
+		case 3: // no condition: the body leaves the loop
+			g.line("for i%d := 0; ; i%d++ {", id, id)
+			g.line("\tif i%d >= %d {", id, rx.Range(g.rt, "bound", 0, 2))
+			g.line("\t\tbreak")
+			g.line("\t}")
+		case 4: // only a condition clause between the semicolons
+			g.line("for ; cnt < %d; {", rx.Range(g.rt, "bound", 0, 2))
+			g.line("\tbump()")
 		case 0:
 			g.line("for reset(); cnt < %d; bump() {", rx.Range(g.rt, "bound", 1, 3))
 		case 1:
